@@ -851,7 +851,7 @@ func (lp *LenProver) pathFacts(b *ssa.BasicBlock) [][]lfact {
 		}
 		ef := lp.edgeFacts(pr, b, i)
 		for _, d := range lp.pathFacts(pr) {
-			nd := append(append([]lfact{}, d...), ef...)
+			nd := append(lp.applyStores(append([]lfact{}, d...), pr, nil), ef...)
 			var ks []string
 			for _, f := range nd {
 				ks = append(ks, f.String())
@@ -892,9 +892,18 @@ func (lp *LenProver) pathFacts(b *ssa.BasicBlock) [][]lfact {
 
 // Prove: at a site in block b, do the path facts entail every goal on every path?
 func (lp *LenProver) Prove(b *ssa.BasicBlock, goals []lin) (bool, []string, string) {
+	return lp.ProveAt(b, nil, goals)
+}
+
+// ProveAt: like Prove, with the stores of b that precede instruction `at` taken into account.
+func (lp *LenProver) ProveAt(b *ssa.BasicBlock, at ssa.Instruction, goals []lin) (bool, []string, string) {
 	paths := lp.pathFacts(b)
 	var fstr []string
-	for pi, d := range paths {
+	for pi, d0 := range paths {
+		d := d0
+		if at != nil {
+			d = lp.applyStores(append([]lfact{}, d0...), b, at)
+		}
 		all := append(append([]lfact{}, d...), lp.defs...)
 		var ds []string
 		for _, f := range d {
@@ -1011,7 +1020,7 @@ func LenSinks(p *Prog, fn *ssa.Function) []*lenSink {
 				}
 			}
 			sort.Strings(s.Atoms)
-			s.Proved, s.Facts, s.Failed = lp.Prove(b, s.Goals)
+			s.Proved, s.Facts, s.Failed = lp.ProveAt(b, ins, s.Goals)
 			out = append(out, s)
 		}
 	}
@@ -1030,6 +1039,9 @@ func (lp *LenProver) canonLoad(v ssa.Value) string {
 	u, ok := v.(*ssa.UnOp)
 	if !ok || u.Op != token.MUL {
 		return ""
+	}
+	if a, ok := u.X.(*ssa.Alloc); ok && lp.trackedCell(a) {
+		return lp.cellAtom(a)
 	}
 	path := lp.canonAddr(u.X)
 	if path == "" {
@@ -1120,4 +1132,68 @@ func (lp *LenProver) ProveAnyOnPath(d []lfact, goals []lin) bool {
 		}
 	}
 	return true
+}
+
+// trackedCell: an integer local whose address is taken but which no closure captures; its current value is
+// tracked along each path (a store drops what was known about the previous value).
+// Assumption: callees that receive the address (option structs) do not write through it.
+func (lp *LenProver) trackedCell(a *ssa.Alloc) bool {
+	pt, ok := a.Type().Underlying().(*types.Pointer)
+	if !ok || !isIntType(pt.Elem()) {
+		return false
+	}
+	if a.Parent() != lp.fn {
+		return false
+	}
+	if refs := a.Referrers(); refs != nil {
+		for _, r := range *refs {
+			switch x := r.(type) {
+			case *ssa.Store, *ssa.UnOp, *ssa.DebugRef:
+			case *ssa.MakeClosure:
+				return false
+			default:
+				_ = x
+				return false
+			}
+		}
+	}
+	return true
+}
+
+func (lp *LenProver) cellAtom(a *ssa.Alloc) string {
+	n := a.Comment
+	if n == "" {
+		n = a.Name()
+	}
+	return "cell:" + n + "·" + a.Name()
+}
+
+// applyStores updates a path's facts for the stores to tracked cells in blk (up to, not including, upto).
+func (lp *LenProver) applyStores(d []lfact, blk *ssa.BasicBlock, upto ssa.Instruction) []lfact {
+	for _, ins := range blk.Instrs {
+		if ins == upto {
+			break
+		}
+		st, ok := ins.(*ssa.Store)
+		if !ok {
+			continue
+		}
+		a, ok := st.Addr.(*ssa.Alloc)
+		if !ok || !lp.trackedCell(a) {
+			continue
+		}
+		atom := lp.cellAtom(a) + "@" + shortSSAFn(a.Parent())
+		var nd []lfact
+		for _, f := range d {
+			if _, mentions := f.l.c[atom]; !mentions {
+				nd = append(nd, f)
+			}
+		}
+		t := lp.term(st.Val)
+		if _, self := t.c[atom]; !self {
+			nd = append(nd, lfact{linAtom(atom).add(t, -1), "eq"})
+		}
+		d = nd
+	}
+	return d
 }
